@@ -745,7 +745,14 @@ class Explorer:
                 return None
         return self.model
 
-    def branch(self, cond):
+    @staticmethod
+    def _ent(d, val):
+        return d if val is None else [d, val]
+
+    def branch(self, cond, _val=None):
+        """_val: the concrete value a concretisation step is testing; it is stored with the decision so that a replayed prefix
+        tests the very same value (the solver's model, and hence the candidate it suggests, differs between the original run
+        and a replay)"""
         cond = z3.simplify(cond)
         if z3.is_true(cond):
             return True
@@ -754,6 +761,8 @@ class Explorer:
         i = len(self.trace)
         if i < len(self.prefix):
             d = self.prefix[i]
+            if isinstance(d, (list, tuple)):
+                d = d[0]
         else:
             # the cached model of the path condition decides one side for free
             side = None
@@ -785,14 +794,14 @@ class Explorer:
                 self.model = m     # still a model of the path condition; valid for the side it satisfies
             if can_t and can_f:
                 d = not self.reverse
-                self.work.append(self.trace + [not d])
+                self.work.append(self.trace + [self._ent(not d, _val)])
             elif can_t:
                 d = True
             elif can_f:
                 d = False
             else:
                 raise Abort()
-        self.trace.append(d)
+        self.trace.append(self._ent(d, _val))
         self.stats.decisions += 1
         c = cond if d else z3.Not(cond)
         self.solver.add(c)
@@ -806,11 +815,15 @@ class Explorer:
         if z3.is_int_value(t):
             return t.as_long()
         for _ in range(self.cap):
-            m = self.current_model()
-            if m is None:
-                raise Abort()
-            v = m.eval(t, model_completion=True)
-            if self.branch(t == v):
+            i = len(self.trace)
+            if i < len(self.prefix) and isinstance(self.prefix[i], (list, tuple)):
+                v = z3.IntVal(self.prefix[i][1])          # replay: the value this decision was taken about
+            else:
+                m = self.current_model()
+                if m is None:
+                    raise Abort()
+                v = m.eval(t, model_completion=True)
+            if self.branch(t == v, _val=v.as_long()):
                 return v.as_long()
         raise HarnessError(f"BOUND-EXCEEDED: concretisation cap {self.cap} exceeded for {t}")
 
